@@ -38,6 +38,7 @@ func init() {
 			"(b) raw peer pings with every payload length 0..125 placed before, between and inside fragmented (compressed) messages, read by CloseRead or an explicit reader, Pong payload sequence compared. distinct key = (kind, role, reader, policy mix, order, ender / placement, agreement)",
 		Gen:         c15Gen,
 		Race:        func(t string) bool { return t == "thorough" },
+		InChild:     func(string) int { return 4 },
 		CaseTimeout: 120 * time.Second,
 		ChildSetup:  func() { installPointHooks(false) },
 		Require: func(tier string) map[string]int64 {
@@ -82,6 +83,12 @@ func c15Gen(tier string, seed int64) []fw.Case {
 		d := c15Desc{Kind: "ping-after-local-close", Seed: rng.U64(), Role: bothRoles[i%2], Params: allParams[rng.Intn(len(allParams))], Reader: []string{"none", "CloseRead", "Read"}[i%3], N: 1 + rng.Intn(5)}
 		dd := d
 		cases = append(cases, fw.Case{Name: fmt.Sprintf("ping-after-local-close/%s/%s/n=%d", d.Role, d.Reader, d.N), Desc: dd, Run: func(r *fw.R) { c15AfterLocalClose(r, dd) }})
+	}
+	ns := tierPick(tier, 8, 40)
+	for i := 0; i < ns; i++ {
+		d := c15Desc{Kind: "slow-pong", Seed: rng.U64(), Role: bothRoles[i%2], Params: allParams[rng.Intn(len(allParams))], Reader: []string{"CloseRead", "Read"}[i%2]}
+		dd := d
+		cases = append(cases, fw.Case{Name: fmt.Sprintf("slow-pong/%s/%s", d.Role, d.Reader), Desc: dd, Run: func(r *fw.R) { c15SlowPong(r, dd) }})
 	}
 	m := tierPick(tier, 200, 4000)
 	for i := 0; i < m; i++ {
@@ -202,6 +209,11 @@ func c15PingCalls(r *fw.R, d c15Desc) {
 			// a pong whose payload belongs to no outstanding ping
 			peer.Send(wire.Pong(append([]byte("x"), calls[i].payload...)))
 			peer.Send(wire.Pong(append(append([]byte(nil), calls[i].payload...), 0)))
+			// other spellings of the same number are different payloads
+			for _, pre := range []string{"0", "+", " ", "00"} {
+				peer.Send(wire.Pong(append([]byte(pre), calls[i].payload...)))
+			}
+			peer.Send(wire.Pong(append(append([]byte(nil), calls[i].payload...), ' ')))
 			r.Count("foreign_or_duplicate_pongs_sent", 2)
 		case "late":
 			late = append(late, i)
@@ -254,7 +266,7 @@ func c15PingCalls(r *fw.R, d c15Desc) {
 	// the connection must still work: a fresh ping answered
 	{
 		pctx, pc := context.WithTimeout(ctx, 10*time.Second)
-		peer.AutoPong = false
+		peer.NoPong.Store(true)
 		n0 := 0
 		peer.Locked(func() { n0 = len(peer.Conf.Pings) })
 		res := make(chan error, 1)
@@ -600,4 +612,51 @@ func c15AfterLocalClose(r *fw.R, d c15Desc) {
 		r.Violate("C15/close-frame-not-seen", what+": the peer never saw the Close frame", "")
 	}
 	r.Key("ping-after-local-close/%s/%s/%s", d.Role, d.Reader, paramsKey(d.Params))
+}
+
+// c15SlowPong: the Pong arrives after 5.5 s, well inside the Ping's own context: Ping must wait for it.
+func c15SlowPong(r *fw.R, d c15Desc) {
+	r.SetSample(d)
+	c, _, peerEnd, err := libConn(d.Role, d.Params, 0, xport.Plan{}, xport.Plan{})
+	if err != nil {
+		r.Violate("C15/attach-failed", err.Error(), "")
+		return
+	}
+	defer c.CloseNow()
+	defer peerEnd.Close()
+	peer := newRawPeer(peerEnd, d.Role, d.Params, d.Seed)
+	peer.OnFrame = func(f wire.Frame) {
+		if f.Op == wire.OpPing {
+			pl := append([]byte(nil), f.Payload...)
+			go func() {
+				time.Sleep(5500 * time.Millisecond)
+				peer.Send(wire.Pong(pl))
+			}()
+		}
+	}
+	peer.Start()
+	ctx, cancel := context.WithTimeout(context.Background(), 30*time.Second)
+	defer cancel()
+	if d.Reader == "CloseRead" {
+		c.CloseRead(ctx)
+	} else {
+		go func() {
+			for {
+				if _, _, err := c.Read(ctx); err != nil {
+					return
+				}
+			}
+		}()
+	}
+	pctx, pc := context.WithTimeout(ctx, 20*time.Second)
+	defer pc()
+	t0 := time.Now()
+	err = c.Ping(pctx)
+	r.Count("ping_calls", 1)
+	r.Key("slow-pong/%s/%s/%s", d.Role, d.Reader, paramsKey(d.Params))
+	if err != nil {
+		r.Violate("C15/ping-failed-before-its-context-ended", fmt.Sprintf("%s %s reader=%s: the Pong was sent 5.5 s after the Ping and the Ping's context allowed 20 s, yet Ping returned %v after %v", d.Role, paramsKey(d.Params), d.Reader, err, time.Since(t0).Round(100*time.Millisecond)), "")
+		return
+	}
+	r.Count("pings_completed_by_own_pong", 1)
 }
